@@ -503,6 +503,32 @@ def apply_rewrites(src, mask, it, ed, stats, spec_entry):
         if mask[lo + m.start()] != ord('c'): continue
         ed.replace(lo + m.start(), lo + m.end(), 'crate::spec::parse_%s_str(&*%s)' % (m.group(2), m.group(1)))
         stats['R15_str'] = stats.get('R15_str', 0) + 1
+    # R11b: `X.to_pstring()` (the crate's own printing trait, called on a generic element) => `to_pstring_w(X)` / `to_pstring_w(&X)`: wrapper whose body is
+    #       that call; result `pstr_of(value)`, a deterministic, otherwise uninterpreted, function of the value (A-print)
+    def r11b_text(x):
+        is_ref = re.search(r'\blet\s+%s\s*=\s*&' % re.escape(x), body) or re.search(r'\bfor\s+%s\s+in\b[^{]*\.iter\(\)' % re.escape(x), body) \
+            or re.search(r'[(,]\s*%s\s*:\s*&' % re.escape(x), src[it['kw']:it['body_start']])
+        return 'crate::spec::to_pstring_w(%s%s)' % ('' if is_ref else '&', x)
+    R11B = r'(?<![\w.])([a-z_]\w*)\.to_pstring\(\)'
+    # R19: `format!(" {}", E)` / `format!("{}", E)` => `format_sp_display(&(E))` / `format_display(&(E))`: wrappers whose bodies are these very macro calls;
+    #      the result is " " + str_of(E) / str_of(E) (A-print).  vstd's own specification of the formatting machinery has a precondition on the generic
+    #      `Display` argument that cannot be met for an arbitrary T.
+    r19_ranges = []
+    for m in re.finditer(r'\bformat!\(\s*"( ?)\{\}"\s*,\s*', body):
+        if mask[lo + m.start()] != ord('c'): continue
+        pc = _close_paren(src, mask, lo + m.start() + len('format!'))
+        if pc is None or pc > hi: continue
+        args = split_args(src, mask, lo + m.end(), pc - 1)
+        if args is None or len(args) != 1: continue
+        arg = re.sub(R11B, lambda x: r11b_text(x.group(1)), src[lo + m.end():pc - 1].strip())
+        ed.replace(lo + m.start(), pc, 'crate::spec::%s(&(%s))' % ('format_sp_display' if m.group(1) else 'format_display', arg) + '\n' * src.count('\n', lo + m.start(), pc))
+        r19_ranges.append((lo + m.start(), pc))
+        stats['R19_format'] = stats.get('R19_format', 0) + 1
+    for m in re.finditer(R11B, body):
+        if mask[lo + m.start()] != ord('c'): continue
+        if any(a <= lo + m.start() < b for a, b in r19_ranges): continue
+        ed.replace(lo + m.start(), lo + m.end(), r11b_text(m.group(1)))
+        stats['R11_to_string'] = stats.get('R11_to_string', 0) + 1
     # R17: `Vec::with_capacity(E)` => `vec_with_capacity(E)`: a wrapper whose body is that call and whose precondition is the allocation bound of the
     #      resource envelope (E <= 2^31-1 elements); vstd's own contract of with_capacity has no precondition, so a capacity computed from a negative
     #      operand (`n as usize`, a capacity-overflow panic) would go unnoticed
@@ -791,7 +817,7 @@ def r9_desugar_iterators(srcs, stats):
         for x in re.finditer(r'\bfor\s*\(\s*(\w+)\s*,\s*(\w+)\s*\)\s+in\s+' + PLACE + r'\.iter\(\)\.enumerate\(\)\s*\{', src):
             if not live(x.start()): continue
             I, X, E = x.group(1), x.group(2), re.sub(r'\s+', '', x.group(3))
-            Iv = I if I != '_' else 'r9_i'
+            Iv = I if not I.startswith('_') else 'r9_i'
             edits.append((x.start(), x.end(), 'for %s in 0..%s.len() { let %s = &%s[%s];' % (Iv, E, X, E, Iv) + nl(x.start(), x.end()), 'R9a_enumerate'))
         # a': enumerate over the reversed slice
         for x in re.finditer(r'\bfor\s*\(\s*(\w+)\s*,\s*(\w+)\s*\)\s+in\s+' + PLACE + r'\.iter\(\)\.rev\(\)\.enumerate\(\)\s*\{', src):
@@ -799,6 +825,11 @@ def r9_desugar_iterators(srcs, stats):
             I, X, E = x.group(1), x.group(2), re.sub(r'\s+', '', x.group(3))
             Iv = I if not I.startswith('_') else 'r9_i'
             edits.append((x.start(), x.end(), 'for %s in 0..%s.len() { let %s = &%s[%s.len() - 1 - %s];' % (Iv, E, X, E, E, Iv) + nl(x.start(), x.end()), 'R9a_enumerate'))
+        # a'': the reversed slice without enumerate
+        for x in re.finditer(r'\bfor\s+(\w+)\s+in\s+' + PLACE + r'\.iter\(\)\.rev\(\)\s*\{', src):
+            if not live(x.start()): continue
+            X, E = x.group(1), re.sub(r'\s+', '', x.group(2))
+            edits.append((x.start(), x.end(), 'for r9_i in 0..%s.len() { let %s = &%s[%s.len() - 1 - r9_i];' % (E, X, E, E) + nl(x.start(), x.end()), 'R9a_enumerate'))
         # b/d/f: expression forms
         for x in re.finditer(PLACE + r'\.iter\(\)\s*\.\s*(fold|filter|position)\s*\(', src):
             if not live(x.start()): continue
